@@ -3,8 +3,8 @@
 From Coq Require Import ZArith List Bool Arith Sorted.
 Import ListNotations.
 From FV.C09 Require Import Table AttrModel.
-From FV.C09 Require Import Model Proofs.
-From FV.C09.gen Require Import MeshCfg.
+From FV.C09 Require Import Model Proofs PolyModel PolyProofs.
+From FV.C09.gen Require Import FirstOrder MeshCfg.
 
 (* np.unique and the two-pointer sweep of remove_useless_nodes *)
 Theorem C09_unique_sorted_complete : forall l,
@@ -132,6 +132,72 @@ Theorem C09_remove_duplicates : forall rows,
   NoDup (map sort_row (remove_duplicates rows)).
 Proof. exact remove_duplicates_spec. Qed.
 
+(* FEMData.convert_polyhedron, the renumbering of the 'face' variable of the
+   polyhedron elements kept by cut_with_element_ids: for the ascending
+   (np.unique) node ids `new` of the cut mesh, the converted row names, face by
+   face, the same node ids in the cut mesh as the original row did in the
+   parent (whose node table holds the ids `now` in storage order, any order);
+   the number of faces, the node counts and the length of the row are kept *)
+Theorem C09_convert_polyhedron : forall now new poly poly' fs,
+  StronglySorted Z.lt new ->
+  convert_polyhedron now new poly = Some poly' ->
+  faces_of now poly = Some fs ->
+  (forall i, In i (concat fs) -> In i new) ->
+  faces_of new poly' = Some fs /\ length poly' = length poly /\ hd_error poly' = hd_error poly.
+Proof. exact convert_polyhedron_spec. Qed.
+
+(* a row that is well formed for the parent's node table is always converted *)
+Theorem C09_convert_polyhedron_total : forall now new poly fs,
+  faces_of now poly = Some fs -> exists poly', convert_polyhedron now new poly = Some poly'.
+Proof. exact convert_polyhedron_total. Qed.
+
+Example C09_convert_polyhedron_nonvacuous :
+  let now := [30; 10; 20; 40]%Z in let new := [10; 20; 30]%Z in
+  let poly := [2; 3; 0; 1; 2; 2; 1; 2]%Z in
+  StronglySorted Z.lt new /\
+  faces_of now poly = Some [[30; 10; 20]; [10; 20]]%Z /\
+  convert_polyhedron now new poly = Some [2; 3; 2; 0; 1; 2; 0; 1]%Z /\
+  faces_of new [2; 3; 2; 0; 1; 2; 0; 1]%Z = Some [[30; 10; 20]; [10; 20]]%Z.
+Proof.
+  cbv zeta. split; [|repeat split; reflexivity].
+  repeat (constructor; [|repeat constructor; reflexivity]). constructor.
+Qed.
+
+(* to_first_order, the elements: blocks, types, ids and their order are kept;
+   the rows of a second-order block are cut to the corner nodes (tet2: 4,
+   hex2: 8), first-order blocks are untouched, other second-order types raise *)
+Theorem C09_to_first_order_elements : forall (bs fe : @blocks conn),
+  elems_first_order bs = Some fe ->
+  Forall2 (fun b b' =>
+             fst b' = fst b /\ ids (snd b') = ids (snd b) /\
+             match first_order_arity (fst b) with
+             | Some None => snd b' = snd b
+             | Some (Some k) => map snd (snd b') = map (firstn k) (map snd (snd b))
+             | None => False
+             end) bs fe.
+Proof. exact elems_first_order_spec. Qed.
+
+(* the table read from FEMElementalAttribute._to_first_order (gen/FirstOrder.v) is the right one:
+   a type that is reduced keeps exactly the nodes of its first-order counterpart (tet2 -> the 4 of
+   tet, hex2 -> the 8 of hex, and for the types the code does not support yet line2 2, tri2 3,
+   quad2 4, pyr2 5, prism2 6 would be the only admissible values); a first-order type is never
+   touched; tet2 and hex2 are supported *)
+Definition corner_nodes (t : nat) : option nat :=
+  match t with
+  | 1 => Some 2 | 4 => Some 3 | 6 => Some 4 | 9 => Some 4 | 11 => Some 5 | 13 => Some 6 | 15 => Some 8
+  | _ => None
+  end%nat.
+
+Theorem C09_first_order_table : forall t,
+  match corner_nodes t with
+  | None => first_order_arity t = Some None
+  | Some k => first_order_arity t = Some (Some k) \/ first_order_arity t = None
+  end /\ first_order_arity 9 = Some (Some 4%nat) /\ first_order_arity 15 = Some (Some 8%nat).
+Proof.
+  intros t. split; [|split; reflexivity].
+  do 19 (destruct t as [|t]; [vm_compute; auto|]). reflexivity.
+Qed.
+
 (* the positional code paths attach values to other ids *)
 Theorem C09_remove_useless_nodes_refuted : forall c, useless_by_id c = false ->
   wf_mesh m_ref = true /\
@@ -194,3 +260,5 @@ Print Assumptions C09_cut_with_element_ids.
 Print Assumptions C09_cut_with_node_ids.
 Print Assumptions C09_sweep_correct.
 Print Assumptions C09_tree_decided.
+Print Assumptions C09_convert_polyhedron.
+Print Assumptions C09_to_first_order_elements.
